@@ -225,10 +225,14 @@ def stmt_idents(st):
     return out
 
 
-def check_disambiguate(shape, tier):
+def check_disambiguate(shape, tier, last_ident="i"):
     from pymbolic.imperative.transform import disambiguate_and_fuse, disambiguate_identifiers
     kinds_a, kinds_b = shape
-    res = ItemResult(item=f"disambiguate kinds a={kinds_a} b={kinds_b}", sample={"statement_kinds": [kinds_a, kinds_b]})
+    # the identifier only stream b uses; variants look like names a fresh-name generator could hand out for y / z
+    # (a stream that is itself the result of an earlier disambiguation contains such names)
+    IDENTS = ["x", "y", "z", last_ident]
+    res = ItemResult(item=f"disambiguate kinds a={kinds_a} b={kinds_b} idents={IDENTS}",
+                     sample={"statement_kinds": [kinds_a, kinds_b], "identifiers": IDENTS})
     # symbolic: which identifier each slot of each statement uses (from IDENTS), and the filter's answer per name
     slots = {}
     pre = []
@@ -394,6 +398,9 @@ def items(tier):
     out = [("rw",), ("fuse",)]
     shapes = [((0, 1), (0, 1)), ((1,), (1, 2)), ((0, 2), (1,)), ((1, 0), (2, 3)), ((2,), (0,)), ((0,), (1,)), ((1,), (1,))]
     out += [("disambiguate", s) for s in shapes]
+    for li in (["y_0", "z_0"] if tier == "quick" else ["y_0", "z_0", "y_1", "z_1", "z0", "_y"]):
+        for s in (shapes[:2] if tier == "quick" else shapes):
+            out.append(("disambiguate", s, li))
     nmax = 5 if tier == "quick" else 6
     for n in range(1, nmax + 1):
         for o in range(2 if tier == "quick" else 3):
@@ -415,7 +422,7 @@ def check_item(item, tier):
     if k == "fuse":
         return check_fuse(tier)
     if k == "disambiguate":
-        return check_disambiguate(item[1], tier)
+        return check_disambiguate(item[1], tier, *item[2:])
     if k == "dot":
         return check_dot(item[1], item[2], tier)
     if k == "dotchain":
